@@ -8,8 +8,8 @@ from ..report import AnalysisError
 STUBS = {'ConfigNode.ayns.preprocess', 'ConfigNode.ayns.premerge', 'ConfigNode.ayns.merge', '_require_all_new', 'rethrow_point'}
 
 
-def _node(name, cls='ConfigDict'):
-    o = Obj(name, cls)
+def _node(name, cls='ConfigDict', empty=False):
+    o = Obj(name, cls, _children={} if empty else {'k': Obj(name + '.k', 'ConfigScalar')})
     o.missing.add('stages')
     return o
 
@@ -131,11 +131,14 @@ def builder_pipeline(repo, run, rule):
     rows = 0
     P, Q, R = _node('P'), _node('Q'), _node('R')
     P2, P3, P4 = _node('P2'), _node('P3'), _node('P4')
+    E = _node('E', empty=True)
     for stages, prem, want_first, want_merges in (
             ([P, Q, R], {}, 'P', [('P', 'Q'), ('M(P,Q)', 'R')]),
             ([P, Q, R], {'P': P2}, 'P2', [('P2', 'Q'), ('M(P2,Q)', 'R')]),
             ([P, Q], {'P': _stream('sP', [P3, P4])}, 'P3', [('P3', 'P4'), ('M(P3,P4)', 'Q')]),
             ([P], {}, 'P', []),
+            ([P, E, R], {}, 'P', [('P', 'E'), ('M(P,E)', 'R')]),       # E: a document without keys - its flags still apply (`--- !del {}` resets the config)
+            ([E, Q], {}, 'E', [('E', 'Q')]),
             ([P], {'P': P2}, 'P2', []),
             ([P, Q], {}, 'P', [('P', 'Q')])):
         r, names, log = _run(repo, 'Builder.flatten', stages, prem=prem)
